@@ -1,5 +1,6 @@
 import NGF.Model.Store
 import NGF.Model.StoreJudge
+import NGF.Model.Footprint
 import NGF.Model.Proto
 /-
 Driver entry for C01.
@@ -48,13 +49,81 @@ def modelLine (line : String) : String :=
   | some b => (replay traceInit (b.splitOn "|") [] [] []).getD "bad-op"
   | none => "bad-op"
 
+/-! ### footprint mode: the referenced sets recomputed by the footprint model from the graph core
+  line   : `winner=<nn|-> routes=<v;p+p;b+b>|… sels=<l+l>|… nss=<nn>:<l+l>|… hasgw=<0|1> btps=<ns;n;wk;kind;group;name>|… ls=<proto;ref;allowed>|…`
+           (`-` = empty list, `~` = empty string)
+  output : `svcs=<…> unref=<…> nss=<…> cms=<…> seccand=<…>` (comma separated, `-` = empty) -/
+
+def lst (s : String) (sep : String) : List String :=
+  if s == "-" || s == "" then [] else s.splitOn sep
+
+def unTilde (s : String) : String := if s == "~" then "" else s
+
+def showSet (l : List String) : String :=
+  if l.isEmpty then "-" else ",".intercalate l.eraseDups
+
+open NGF.Footprint in
+def footprintLine (line : String) : String :=
+  let fs := line.splitOn " "
+  match field fs "winner", field fs "routes", field fs "sels", field fs "nss", field fs "hasgw", field fs "btps",
+        field fs "ls" with
+  | some w, some rs, some sels, some nss, some hg, some btps, some ls =>
+    let routes? := (lst rs "|").mapM fun r =>
+      match r.splitOn ";" with
+      | [v, ps, bs] => some ({ valid := v == "1", parents := lst ps "+", backends := (lst bs "+").map unTilde } : RouteM)
+      | _ => none
+    let btps? := (lst btps "|").mapM fun b =>
+      match b.splitOn ";" with
+      | [ns, n, wk, kind, group, name] =>
+        n.toNat?.map fun k => ({ ns := ns, nrefs := k, wellKnown := wk == "1", kind := unTilde kind, group := unTilde group,
+                                 name := name } : BtpM)
+      | _ => none
+    let ls? := (lst ls "|").mapM fun l =>
+      match l.splitOn ";" with
+      | [proto, ref, al] => some ({ protocol := proto, certRef := ref, allowed := al == "1" } : ListenerM)
+      | _ => none
+    let nss? := (lst nss "|").mapM fun n =>
+      match n.splitOn ":" with
+      | [nn, labels] => some (nn, (lst labels "+").map fun t => (t, ""))
+      | _ => none
+    match routes?, btps?, ls?, nss? with
+    | some routes, some bt, some lsn, some nsl =>
+      let core : SvcCore := { winner := if w == "-" then none else some w, routes := routes }
+      let refd := referencedServices core
+      let unref := (readServices core).filter (!refd.contains ·)
+      let nc : NsCore := { sels := (lst sels "|").map fun s => (lst s "+").map fun t => (t, "") }
+      s!"svcs={showSet refd} unref={showSet unref} nss={showSet (referencedNamespaces nc nsl)} cms={showSet (referencedConfigMaps { hasGateway := hg == "1", btps := bt })} seccand={showSet (secretCandidates { listeners := lsn })}"
+    | _, _, _, _ => "bad-op"
+  | _, _, _, _, _, _, _ => "bad-op"
+
+/-! ### watchsvc mode: `ServicePortsChangedPredicate.Update` as modelled (`Footprint.watchSvc`)
+  line   : `old=<port:name:target+…>/<ipFamily+…> new=…`   output : `0` | `1` -/
+open NGF.Footprint in
+def parseSvc (s : String) : Option Svc :=
+  match s.splitOn "/" with
+  | [ps, fam] =>
+    ((lst ps "+").mapM fun (p : String) =>
+      match p.splitOn ":" with
+      | [n, name, t] => n.toNat?.map fun k => ({ port := k, name := unTilde name, target := unTilde t } : SvcPort)
+      | _ => none).map fun ports => { ports := ports, ipFamilies := lst fam "+" }
+  | _ => none
+
+open NGF.Footprint in
+def watchSvcLine (line : String) : String :=
+  let fs := line.splitOn " "
+  match field fs "old" >>= parseSvc, field fs "new" >>= parseSvc with
+  | some o, some n => if watchSvc o n then "1" else "0"
+  | _, _ => "bad-op"
+
 def driver (args : List String) : IO UInt32 := do
   let stdin ← IO.getStdin
   let stdout ← IO.getStdout
   match args with
   | ["model"] => forEachLine stdin fun l => stdout.putStrLn (modelLine l)
   | ["judge"] => forEachLine stdin fun l => stdout.putStrLn (judgeLine l)
-  | _ => IO.eprintln "usage: C01 model|judge"; return 2
+  | ["footprint"] => forEachLine stdin fun l => stdout.putStrLn (footprintLine l)
+  | ["watchsvc"] => forEachLine stdin fun l => stdout.putStrLn (watchSvcLine l)
+  | _ => IO.eprintln "usage: C01 model|judge|footprint|watchsvc"; return 2
   return 0
 
 end NGF.Store
